@@ -92,7 +92,8 @@ def main():
                 build_s[cfg] = round(bs, 1)
                 kani.log("config %s: built in %.0fs" % (cfg, bs))
                 rs = kani.run_all(metas, {s["name"]: dict(unwind=s.get("unwind"), cap_s=int(s.get("cap_s", 240) * a.cap_scale),
-                                                          mem_gb=s.get("mem_gb", 10), extra_cbmc=s.get("extra_cbmc", ()))
+                                                          mem_gb=s.get("mem_gb", 10), extra_cbmc=s.get("extra_cbmc", ()),
+                                                          unwindset=s.get("unwindset"))
                                           for s in ss}, os.path.join(sc.dir, "work"), a.jobs)
                 for s in ss:
                     r = rs[s["name"]]
